@@ -60,6 +60,7 @@ pub enum Expr {
     Try(Box<Expr>, Pat, Box<Expr>),
     EvalSrc(Box<Expr>),
     Freeze(Box<Expr>),
+    Switch(Box<Expr>, Vec<(Pat, Expr)>),
 }
 
 pub fn b(e: Expr) -> Box<Expr> {
@@ -208,6 +209,11 @@ impl Expr {
                 format!("(eval(\"{}\"))", esc)
             }
             Expr::Freeze(e) => format!("(freeze {})", e.src()),
+            Expr::Switch(sc, arms) => format!(
+                "(switch ({}) {})",
+                sc.src(),
+                arms.iter().map(|(p, b)| format!("case {} -> {}", p.src(), b.src())).collect::<Vec<_>>().join(" ")
+            ),
         }
     }
 
@@ -293,6 +299,11 @@ impl Expr {
             Expr::Try(bb, p, c) => format!("(try {} {} {})", bb.sexp(), p.sexp(), c.sexp()),
             Expr::EvalSrc(e) => format!("(eval {})", e.sexp()),
             Expr::Freeze(e) => format!("(freeze {})", e.sexp()),
+            Expr::Switch(sc, arms) => format!(
+                "(switch {} {})",
+                sc.sexp(),
+                arms.iter().map(|(p, b)| format!("(arm {} {})", p.sexp(), b.sexp())).collect::<Vec<_>>().join(" ")
+            ),
         }
     }
 
